@@ -126,9 +126,42 @@ func init() {
  package switch const fallthrough if range type continue for import return var any bool byte comparable
  complex64 complex128 error float32 float64 int int8 int16 int32 int64 rune string uint uint8 uint16 uint32
  uint64 uintptr true false iota nil append cap clear close complex copy delete imag len make max min new
- panic print println real recover json yaml fmt slices strings strconv genum dumplib aux tm
- e ok v s text input err data value uinter64 sint64 floater64 floater32 v0 v1 v2 v3 v4 tv`) {
+ panic print println real recover json yaml fmt slices strings strconv genum dumplib aux tm`) {
 		reserved[w] = true
+	}
+}
+
+// templateIdentifiers are the identifiers enumTemplate.gotmpl binds where it refers to the definitions by
+// name (generate.go reservedIdentifiers): a constant of such a name must be refused by the generator —
+// `text` and `ok` only with -caseInsensitive.  The farm draws them as ordinary names (near-miss stream).
+func reservedName(name string, ci bool) bool {
+	return name == "e" || name == "input" || (ci && (name == "text" || name == "ok"))
+}
+
+// cellIdentOK: identifiers bound to trait cells must not be e / input (outside the modelled space)
+func cellIdentOK(name string) bool { return name != "e" && name != "input" && name != "_e" && name != "_input" }
+
+// markReserved tags enums holding a constant the generator must refuse; the refusal concerns the whole CLI
+// run, so such a file is reduced to that one enum.
+func markReserved(fd *FileDef) {
+	for ei := range fd.Enums {
+		e := &fd.Enums[ei]
+		hit := false
+		for _, c := range e.Consts {
+			if reservedName(c.Name, fd.Opts.CI) {
+				hit = true
+			}
+		}
+		if hit {
+			if !contains(e.Shape, "reserved_identifier_name") {
+				e.Shape = append(e.Shape, "reserved_identifier_name")
+				sort.Strings(e.Shape)
+			}
+			if len(fd.Enums) > 1 {
+				fd.Enums = []EnumDef{*e}
+			}
+			return
+		}
 	}
 }
 
